@@ -1,15 +1,2 @@
 // driver TU for C17: page allocators (defined in page_allocator.cpp) and ObjectPool<T>
 #include "babylon/reusable/page_allocator.cpp"
-#include "babylon/concurrent/object_pool.h"
-namespace babylon_vf {
-struct Obj { int x; };
-using Pool = ::babylon::ObjectPool<Obj>;
-size_t force(Pool& pool, ::std::unique_ptr<Obj>&& o) {
-  auto a = pool.pop();
-  auto b = pool.try_pop();
-  a = ::std::move(b);
-  pool.push(::std::move(o));
-  pool.push(::std::move(a));
-  return pool.free_object_number();
-}
-}
